@@ -131,6 +131,11 @@ class Element:
                 dims = equation.resolve_dimensions()
                 if(dims != -1):  # It is an arrayed equation
                     arrayed_equation = True
+                    # the stock has been given its dimensions already: the expression must have the same ones
+                    own = self._elements.matrix_size() if (len(dims) >= 2 and dims[1] != 0) else [self._elements.vector_size()]
+                    if list(own) != [d for d in dims if d != 0][:len(own)] or (len(own) == 1 and len(dims) >= 2 and dims[1] != 0):
+                        raise Exception(
+                            "Stock {} and its equation have different sizes ({} and {})".format(self.name, own, dims))
                     if len(dims) < 2 or dims[1] == 0:
                         # Copy equations with relevant indices
                         if(equation.is_named()):
@@ -385,6 +390,7 @@ class Element:
             set_stack_equation: bool - If false and the element is a stock, the stock initial value is set.
         """
         self.arrayed = True
+        self._elements.equations = []   # dimensioned anew: members of a previous, larger dimensioning are not part of the array any more
         if isinstance(default_value, (float, int)):
             for i in range(size):
                 if(self.type == "Stock" and not set_stack_equation):
@@ -434,6 +440,7 @@ class Element:
                 "Expected two-element size to be passed to setup_matrix. Received size {}!".format(size))
 
         self.arrayed = True
+        self._elements.equations = []   # dimensioned anew (see setup_vector)
         if isinstance(default_value, (float, int)):
             for i in range(size[0]):
                 self[i] = None
